@@ -97,7 +97,23 @@ func (d DID) PubKey() (crypto.PubKey, error) {
 	}
 
 	codeSize := varint.UvarintSize(uint64(d.code))
-	return unmarshaler([]byte(d.bytes)[codeSize:])
+	pubKey, err := unmarshaler([]byte(d.bytes)[codeSize:])
+	if err != nil {
+		return nil, err
+	}
+
+	// One principal, one DID: the unmarshallers are more liberal than FromPubKey (for instance, an
+	// uncompressed secp256k1 point is accepted), and DIDs are compared with ==. Only the identifier
+	// that FromPubKey builds for this key is accepted.
+	canonical, err := FromPubKey(pubKey)
+	if err != nil {
+		return nil, err
+	}
+	if canonical != d {
+		return nil, fmt.Errorf("not the canonical did:key identifier of its public key")
+	}
+
+	return pubKey, nil
 }
 
 // String formats the decentralized identity document (DID) as a string.
